@@ -568,3 +568,30 @@ func (g *weightedGate) enter(w int64) func() {
 		g.cond.Broadcast()
 	}
 }
+
+// withTmpdirVariants runs fn once per environment variant of the process temp directory: on another file system than the
+// output files (a rename from there fails with EXDEV), and not existing at all. An exporter may use scratch files, but what
+// ends up at the requested path must not depend on where the temp directory is. fn runs with the variable set; the previous
+// value is restored afterwards. Call it only while no other goroutine of the check reads the environment.
+func withTmpdirVariants(c *Ctx, fn func(tag string)) {
+	old, had := os.LookupEnv("TMPDIR")
+	restore := func() {
+		if had {
+			os.Setenv("TMPDIR", old)
+		} else {
+			os.Unsetenv("TMPDIR")
+		}
+	}
+	defer restore()
+	if d, err := os.MkdirTemp("/dev/shm", "vcheck-tmp-"); err == nil {
+		os.Setenv("TMPDIR", d)
+		fn("TMPDIR on another file system (/dev/shm)")
+		os.RemoveAll(d)
+		c.Count("environment_variants/tmpdir_on_other_filesystem", 1)
+	} else {
+		c.Count("environment_variants/tmpdir_on_other_filesystem_not_available", 1)
+	}
+	os.Setenv("TMPDIR", filepath.Join(scratch(), "no", "such", "tmpdir"))
+	fn("TMPDIR does not exist")
+	c.Count("environment_variants/tmpdir_missing", 1)
+}
